@@ -55,7 +55,7 @@ fn go(op: &str, a: &[i64]) -> Option<String> {
 
 
 /// years visited by the sampled tiers: quick = 0..=300, every 10th year, and the last 3; thorough = all
-pub fn year_selected(y: i64, args: &[String]) -> bool {
+pub fn year_selected_old(y: i64, args: &[String]) -> bool {
   let all = args.get(0).map(|s| s == "all").unwrap_or(false);
   all || y <= 300 || y % 10 == 0 || y >= 9997 || (1575..=1590).contains(&y)
 }
